@@ -1018,7 +1018,7 @@ def run(ctx):
     vlib.standard_proof_step(ctx, targets, props, search)
 
     # ------------------------------------------------- correspondence (K)
-    nconv = 140 if ctx.quick else 2000
+    nconv = 140 if ctx.quick else 1400
     cases = []          # (family, payload, expr, impl_value, canon_fn)
     dist = {}
 
@@ -1221,7 +1221,7 @@ def run(ctx):
     replay_witnesses(ctx)
 
     # ------------------------------------------------ oracle (always runs)
-    nmaps = 60 if ctx.quick else 1500
+    nmaps = 60 if ctx.quick else 1000
     stats = {}
     kinds = {}
     cdir2 = [c for c in corpus if c.get("family") == "map"]
